@@ -2,6 +2,7 @@ package gqlgen
 
 import (
 	"fmt"
+	"math"
 	"strconv"
 
 	"verifharness/hx"
@@ -132,8 +133,17 @@ func (g *worldGen) value(t TypeRef, subs [][]*Sel, path string) *Outcome {
 func (g *worldGen) named(name string, subs [][]*Sel, path string) *Outcome {
 	switch name {
 	case "Int":
+		if g.r.Chance(1, 3) {
+			return Leaf(hx.Pick(g.r, []GoVal{SignedVal("int8", -128), UnsignedVal("uint8", 255), SignedVal("int16", 32767), UnsignedVal("uint16", 65535),
+				SignedVal("int32", -2147483648), UnsignedVal("uint32", 2147483647), SignedVal("int64", 2147483647), UnsignedVal("uint64", 7), UnsignedVal("uint", 2147483647),
+				FloatVal(-2147483648), Float32Val(16777216)}))
+		}
 		return Leaf(IntVal(int64(hx.Pick(g.r, []int{0, 1, -1, 7, 42, 2147483647, -2147483648}))))
 	case "Float":
+		if g.r.Chance(1, 3) {
+			return Leaf(hx.Pick(g.r, []GoVal{SignedVal("int64", math.MaxInt64), UnsignedVal("uint64", math.MaxUint64), IntVal(1<<53 + 1), SignedVal("int8", -3),
+				UnsignedVal("uint32", 4294967295), Float32Val(0.1), Float32Val(3.4e38), FloatVal(1e300), UnsignedVal("uint", 1<<63)}))
+		}
 		return Leaf(FloatVal(hx.Pick(g.r, []float64{0, 1.5, -2.25, 3, 1e10, 0.1})))
 	case "String":
 		return Leaf(StrVal(hx.Pick(g.r, []string{"", "s", "hello", "a\"b", "ü"})))
@@ -143,7 +153,8 @@ func (g *worldGen) named(name string, subs [][]*Sel, path string) *Outcome {
 		if g.r.Bool() {
 			return Leaf(StrVal(hx.Pick(g.r, []string{"id1", "7"})))
 		}
-		return Leaf(IntVal(int64(hx.Pick(g.r, []int{0, 12, -5, 9007199254740993}))))
+		return Leaf(hx.Pick(g.r, []GoVal{IntVal(0), IntVal(12), IntVal(-5), IntVal(9007199254740993), SignedVal("int64", math.MinInt64),
+			UnsignedVal("uint64", math.MaxInt64), UnsignedVal("uint8", 200), SignedVal("int16", -32768), UnsignedVal("uint", 1<<63-1)}))
 	}
 	t := g.s.Type(name)
 	if t == nil {
@@ -162,6 +173,51 @@ func (g *worldGen) named(name string, subs [][]*Sel, path string) *Outcome {
 		return g.node(hx.Pick(g.r, poss), subs, path)
 	}
 }
+
+// BoundaryNumbers lists numeric leaf values of every Go integer and float kind at the boundaries that
+// matter for result coercion: each kind's own min/max, ±2^31, 2^32, 2^53, 2^63, MaxUint64, integral
+// and non-integral float32/float64 including values beyond the int64 range.
+func BoundaryNumbers() []GoVal {
+	var out []GoVal
+	signed := map[string][2]int64{"int8": {math.MinInt8, math.MaxInt8}, "int16": {math.MinInt16, math.MaxInt16},
+		"int32": {math.MinInt32, math.MaxInt32}, "int64": {math.MinInt64, math.MaxInt64}, "int": {math.MinInt64, math.MaxInt64}}
+	unsigned := map[string]uint64{"uint8": math.MaxUint8, "uint16": math.MaxUint16, "uint32": math.MaxUint32,
+		"uint64": math.MaxUint64, "uint": math.MaxUint64}
+	interesting := []int64{0, 1, -1, 2, 127, 128, -128, -129, 255, 256, 32767, 32768, -32768, 65535, 65536,
+		1<<31 - 1, 1 << 31, -(1 << 31), -(1 << 31) - 1, 1<<32 - 1, 1 << 32, 1<<53 - 1, 1 << 53, 1<<53 + 1, 1<<53 + 3, -(1 << 53) - 1,
+		1<<62 + 1, math.MaxInt64 - 1, math.MaxInt64, math.MinInt64, math.MinInt64 + 1}
+	for _, k := range IntKinds {
+		if r, ok := signed[k]; ok {
+			for _, z := range interesting {
+				if z >= r[0] && z <= r[1] {
+					out = append(out, SignedVal(k, z))
+				}
+			}
+			out = append(out, SignedVal(k, r[0]), SignedVal(k, r[1]))
+		} else {
+			max := unsigned[k]
+			for _, z := range interesting {
+				if z >= 0 && uint64(z) <= max {
+					out = append(out, UnsignedVal(k, uint64(z)))
+				}
+			}
+			out = append(out, UnsignedVal(k, max), UnsignedVal(k, max-1))
+			if max == math.MaxUint64 {
+				out = append(out, UnsignedVal(k, 1<<63), UnsignedVal(k, 1<<63+1), UnsignedVal(k, 1<<63-1), UnsignedVal(k, 1<<63+1<<10+1))
+			}
+		}
+	}
+	for _, f := range []float64{0, 1, -1, 0.5, 2.5, -2.25, 3, 1e10, 0.1, 2147483647, 2147483648, -2147483648, -2147483649, 2147483647.5,
+		4294967296, 9007199254740992, 9007199254740994, 9223372036854775808, -9223372036854775808, 1e19, -1e19, 1.8446744073709552e19, 1e300, 5e-324} {
+		out = append(out, FloatVal(f))
+	}
+	for _, f := range []float32{0, 1, -1, 0.5, 2.5, 3, 16777216, 16777218, 2147483648, -2147483648, 2147483520, 4294967296, 9223372036854775808, 1e19, -1e19, 3.4e38, 1e-45} {
+		out = append(out, Float32Val(f))
+	}
+	return out
+}
+
+var boundaryNumbers = BoundaryNumbers()
 
 // Failure kinds that can be injected at a site.
 var FailureKinds = []string{"null", "err", "tnil", "wrong", "range", "notlist", "badenum", "badtype"}
@@ -196,17 +252,15 @@ func (g *worldGen) inject(site Site, kind string) bool {
 			return false
 		}
 		switch base.Name {
-		case "Int":
-			*site.Slot = Leaf(hx.Pick(g.r, []GoVal{IntVal(2147483648), IntVal(-2147483649), FloatVal(2.5), FloatVal(2147483648), FloatVal(3),
-				FloatVal(-2147483648), BoolVal(true), StrVal("1"), IntVal(2147483647), FloatVal(2147483647)}))
-		case "Float":
-			*site.Slot = Leaf(hx.Pick(g.r, []GoVal{IntVal(3), BoolVal(false), StrVal("1.5"), IntVal(-9007199254740992)}))
+		case "Int", "Float", "ID", "Boolean":
+			// a number of any Go integer / float kind at a boundary (accepted or rejected, depending on the type)
+			if g.r.Chance(1, 6) {
+				*site.Slot = Leaf(hx.Pick(g.r, []GoVal{BoolVal(true), BoolVal(false), StrVal("1"), StrVal("true")}))
+			} else {
+				*site.Slot = Leaf(hx.Pick(g.r, boundaryNumbers))
+			}
 		case "String":
-			*site.Slot = Leaf(hx.Pick(g.r, []GoVal{IntVal(3), BoolVal(false), FloatVal(1.5)}))
-		case "Boolean":
-			*site.Slot = Leaf(hx.Pick(g.r, []GoVal{IntVal(1), StrVal("true"), FloatVal(0)}))
-		case "ID":
-			*site.Slot = Leaf(hx.Pick(g.r, []GoVal{FloatVal(3), BoolVal(true), IntVal(-1)}))
+			*site.Slot = Leaf(hx.Pick(g.r, []GoVal{IntVal(3), BoolVal(false), FloatVal(1.5), UnsignedVal("uint8", 65)}))
 		default:
 			return false
 		}
@@ -218,7 +272,14 @@ func (g *worldGen) inject(site Site, kind string) bool {
 		if t == nil || t.Kind != "enum" {
 			return false
 		}
-		*site.Slot = Leaf(hx.Pick(g.r, []GoVal{StrVal("nope"), IntVal(99), StrVal(t.Values[0].Name + "_"), BoolVal(true), FloatVal(0)}))
+		cands := []GoVal{StrVal("nope"), IntVal(99), StrVal(t.Values[0].Name + "_"), BoolVal(true), FloatVal(0)}
+		for _, ev := range t.Values {
+			if ev.Value.Kind == "int" {
+				// the same number as a declared value but of another Go type: not the same Go value
+				cands = append(cands, SignedVal("int64", ev.Value.Int), UnsignedVal("uint8", uint64(ev.Value.Int)), FloatVal(float64(ev.Value.Int)))
+			}
+		}
+		*site.Slot = Leaf(hx.Pick(g.r, cands))
 	case "badtype":
 		// an object of a type that is not a possible type here (abstract types only notice it)
 		if base.Kind != "named" || !g.s.IsComposite(base.Name) {
